@@ -556,6 +556,14 @@ structure CommonOtpExt where
   parseForm : Option Err
   atoi : Str → Nat × Option Err
 
+/-! ### cmd/keymasterd `checkPasswordAttemptLimit` -/
+
+/-- effects: the global limiter was asked for a token (`Allow()`), a refusal written -/
+inductive PwLimitEffect
+  | tokenTaken
+  | fail (status : Nat)
+deriving DecidableEq, Repr
+
 /-! ### cmd/keymasterd `consumeLoginChallenge` -/
 
 /-- `localUserData`: the pending challenge of a user; the two challenge pointers are compared by identity (numbers
